@@ -23,6 +23,9 @@ CHECKS = {
  'C12': ('bounded-exhaustive + proptest inputs against an independent line/column counter and source-lexing span oracles',
          'Every span endpoint and error marker is recomputed from the input characters (LF, CR, CRLF); nesting/order invariants; one-line plain and quoted scalar extents; Display format; MarkedYaml(Owned) node spans vs creating events.',
          'Synthesised null scalars and positions at end of input are exempt as stated in DESIGN.md §7 I5/I6; block scalar extent not asserted.', '5 C12'),
+ 'C13': ('generated JSON values x choice-stream-driven serialiser (whitespace, escapes) compared with the generating value',
+         '2*10^5 (quick) / 4*10^6 (thorough) JSON values (hostile strings as keys and values, boundary numbers, depth <= 8, chains to depth 200) serialised compact, pretty or with random space/tab/LF/CRLF runs around every token; load_from_str must return the generating value.',
+         'The generator and serialiser are the JSON reference; numbers compared by exact value (I8).', '5 C13'),
  'C14': ('metamorphic relation (LF -> CRLF / CR) over bounded-exhaustive and proptest inputs',
          'Every CR-free generated input is re-parsed with CRLF and with lone CR: same events, scalar values, line/col, outcome and error text.',
          'Differential against the implementation itself by design; error index not compared (I14).', '5 C14'),
